@@ -259,7 +259,8 @@ Section RoundTrip.
           cbn [forallb fst] in Ht. split_and Ht.
           destruct (key_ser k0 k Ht) as (s & Ks & Kser & _).
           cbn [fst]. rewrite Kser. rewrite Ks in Hk1. exact Hk1.
-      + fuel1 n. rewrite Hn by lia. reflexivity.
+      + fuel1 n. rewrite Hn by lia. cbn [obind norm].
+        rewrite last_wins_nodup by (rewrite keys_of_map_snd; exact Ht0). reflexivity.
     - (* struct *) split_and Ht. apply str_eqb_spec in Ht. subst name.
       destruct (assoc n E) as [[]|] eqn:Ea; try discriminate. split_and Ht0.
       cbn [finite_floats known_class] in Hf, Hk.
